@@ -230,6 +230,31 @@ class SymSeries:
             return pyvc.fresh("series_sum", z3.IntSort() if self.col.dtype in ("int", "bool") else z3.RealSort())
         if attr == "unique":
             return SeriesValueSet(self)
+        if attr == "cumsum" and not args:
+            _assume("pandas Series.cumsum(): running total in row order (kept abstract in the relational model: one uninterpreted column)")
+            k = next(_uid)
+            sort = z3.IntSort() if self.col.dtype in ("int", "bool") else z3.RealSort()
+            fn = z3.Function(f"cumsum{k}", *([z3.IntSort()] * self.uni.arity), sort)
+            return self._mk(lambda r, _f=fn: _f(*r), None, "int" if sort == z3.IntSort() else "float")
+        if attr == "rank" and not args and self.col.null is None and self.col.dtype in ("int", "float"):
+            method = kwargs.get("method", "average")
+            asc = kwargs.get("ascending", True)
+            if method not in ("min", "max", "average", "dense", "first") or not isinstance(asc, bool) or set(kwargs) - {"method", "ascending"}:
+                raise Unsupported("Series.rank arguments")
+            _assume("pandas Series.rank(method, ascending): a number in [1, n] per row, strictly monotone in the value (direction by `ascending`), equal for equal values unless method='first' (kept abstract otherwise)")
+            k = next(_uid)
+            fn = z3.Function(f"rank{k}", *([z3.IntSort()] * self.uni.arity), z3.RealSort())
+            a, b = self.uni.skolem(f"ra{k}"), self.uni.skolem(f"rb{k}")
+            pa, pb = to_z3(self.present(a)), to_z3(self.present(b))
+            va, vb = to_z3(self.col.val(a)), to_z3(self.col.val(b))
+            ex.facts.append(z3.ForAll(list(a), z3.Implies(pa, fn(*a) >= 1), patterns=[fn(*a)]))
+            ex.facts.append(z3.ForAll(list(a) + list(b), z3.Implies(z3.And(pa, pb, (va < vb) if asc else (va > vb)), fn(*a) < fn(*b)), patterns=[z3.MultiPattern(fn(*a), fn(*b))]))
+            if method != "first":
+                ex.facts.append(z3.ForAll(list(a) + list(b), z3.Implies(z3.And(pa, pb, va == vb), fn(*a) == fn(*b)), patterns=[z3.MultiPattern(fn(*a), fn(*b))]))
+            return self._mk(lambda r, _f=fn: _f(*r), None, "float")
+        if attr == "quantile" and len(args) == 1:
+            _assume("pandas Series.quantile(q): a number (kept abstract)")
+            return pyvc.fresh("quantile", z3.RealSort())
         if attr in ("max", "min"):
             return series_extreme(ex, self, attr == "max", pc)
         if attr == "item":
@@ -344,6 +369,14 @@ class IndexOf:
             return IndexUnion([self.owner, args[0].owner])
         return NotImplemented
 
+    def hv_compare(self, ex, op, other, reflected):
+        o = self.owner
+        if getattr(o, "label", None) is None or isinstance(other, (SymSeries, IndexOf)):
+            raise Unsupported("comparison of an index with unknown labels / with another index")
+        _assume("pandas Index compared with a scalar: element-wise over the labels")
+        lab = o.label
+        return SymSeries(o.uni, Col((lambda r: ex.compare(op, other, lab(r)) if reflected else ex.compare(op, lab(r), other)), None, "bool"), o.present, "index_cmp", o.label)
+
     def hv_setattr(self, ex, attr, v, pc):
         if attr in ("names", "name"):
             return  # naming the index does not change rows, labels or contents
@@ -415,13 +448,95 @@ class Extreme:
 
 
 class SymGroupBy:
-    """df.groupby(key) kept abstract: contracts that iterate over it run the loop body on a window over one group."""
+    """df.groupby(key) kept abstract: contracts that iterate over it run the loop body on a window over one group;
+    groupby(key)[col].agg([...]) gives an aggregate table (agg_table)."""
 
     def __init__(self, df, key):
         self.df, self.key = df, key
 
     def __deepcopy__(self, memo):
         return self
+
+    def hv_getitem(self, ex, idx, pc):
+        if isinstance(idx, str):
+            return GroupCol(self, idx)
+        raise Unsupported("groupby(...)[<non-string>]")
+
+
+class GroupCol:
+    def __init__(self, gb: SymGroupBy, col: str):
+        self.gb, self.col = gb, col
+
+    def __deepcopy__(self, memo):
+        return self
+
+    def hv_call_method(self, ex, attr, args, kwargs, pc, env):
+        if attr == "agg" and len(args) == 1 and isinstance(args[0], list) and all(isinstance(f, str) for f in args[0]):
+            return agg_table(ex, self.gb.df, self.gb.key, self.col, args[0])
+        return NotImplemented
+
+
+AGG_FUNCS = ("sum", "max", "min", "mean", "std", "count")
+
+
+def agg_table(ex, df: "SymDF", key, col: str, funcs: List[str]) -> "SymDF":
+    """df.groupby(by=[k])[col].agg([f1, f2, ...]): one row per distinct non-missing key value among the rows of df, labelled
+    by the key, columns f1, f2, ... holding that group's aggregate of `col`.
+
+    Model: the table lives on df's own universe - a group is represented by ONE of its rows, chosen by a function REP of
+    the key value; the aggregates are uninterpreted functions of (this table, key value).  What each aggregate IS (the sum /
+    max / ... of the group's values) is the assumed pandas contract; contracts state their postconditions in terms of the
+    `agg_of` accessors of the table."""
+    if isinstance(key, list):
+        if len(key) != 1:
+            raise Unsupported("groupby over several keys")
+        key = key[0]
+    if not isinstance(key, str) or key not in df.cols or col not in df.cols:
+        raise Unsupported("groupby key / column")
+    bad = [f for f in funcs if f not in AGG_FUNCS]
+    if bad:
+        raise Unsupported(f"aggregate functions {bad}")
+    _assume("pandas groupby(by=[k])[c].agg([...]): one row per distinct non-missing key, labelled by the key, in key order; each column is that group's aggregate of c "
+            "(std: sample standard deviation, missing for a one-row group)")
+    k = next(_uid)
+    kc, vc = df.cols[key], df.cols[col]
+    probe = to_z3(kc.val(df.uni.skolem("ak")))
+    ksort = probe.sort()
+    rep = [z3.Function(f"agg{k}_rep{i}", ksort, z3.IntSort()) for i in range(df.uni.arity)]
+    pres = df.present
+
+    def REP(v):
+        return tuple(f(v) for f in rep)
+
+    r = df.uni.skolem(f"ar{k}")
+    kv = to_z3(kc.val(r))
+    member = to_z3(z_and(pres(r), z_not(kc.isnull(r))))
+    w = REP(kv)
+    ex.facts.append(z3.ForAll(list(r), z3.Implies(member, to_z3(z_and(pres(w), z_not(kc.isnull(w)), to_z3(kc.val(w)) == kv)))))
+
+    def present(rr):
+        v = to_z3(kc.val(rr))
+        return z_and(pres(rr), z_not(kc.isnull(rr)), *[REP(v)[i] == rr[i] for i in range(df.uni.arity)])
+
+    num_sort = z3.IntSort() if vc.dtype in ("int", "bool") else z3.RealSort()
+    cols: Dict[str, Col] = {}
+    aggs = {}
+    for f in funcs:
+        sort = z3.RealSort() if f in ("mean", "std") else (z3.IntSort() if f == "count" else num_sort)
+        fn = z3.Function(f"agg{k}_{f}", ksort, sort)
+        aggs[f] = fn
+        if f == "std":
+            nf = z3.Function(f"agg{k}_std_isnull", ksort, z3.BoolSort())
+            cols[f] = Col((lambda rr, _fn=fn: _fn(to_z3(kc.val(rr)))), (lambda rr, _nf=nf: _nf(to_z3(kc.val(rr)))), "float")
+        else:
+            cols[f] = Col((lambda rr, _fn=fn: _fn(to_z3(kc.val(rr)))), None, "float" if sort == z3.RealSort() else "int")
+    out = SymDF(df.uni, cols, present, lambda rr: kc.val(rr), f"agg_{key}_{col}", ("groupby", k, key))
+    out.label_name = key
+    out.label_col = Col(kc.val, None, kc.dtype)
+    out.agg_of = aggs  # f -> function of the key value
+    out.agg_source = (df, key, col)
+    ex.__dict__.setdefault("_agg_tables", []).append(out)
+    return out
 
 
 class RowView:
@@ -467,6 +582,8 @@ class Loc:
         df = self.df
         if isinstance(idx, tuple) and len(idx) == 2 and isinstance(idx[1], str) and not isinstance(idx[0], (SymSeries, slice)) and idx[0] is not ALL:
             return df.scalar_at_label(ex, idx[0], idx[1], pc)
+        if isinstance(idx, tuple) and len(idx) == 2 and isinstance(idx[0], SymSeries) and idx[0].col.dtype != "bool" and isinstance(idx[1], str):
+            return df.series_at_labels(ex, idx[0], idx[1], pc)
         if isinstance(idx, tuple) and len(idx) == 2:
             rows, cols = idx
             sub = df.select(rows) if not (isinstance(rows, slice) or rows is Ellipsis or rows is ALL) else df
@@ -537,6 +654,20 @@ class SymDF:
         n = nrows if nrows is not None else z3.Int(f"{name}_nrows")
         return SymDF(uni, cols, lambda r, _n=n: z3.And(r[0] >= 0, r[0] < _n), None, name)
 
+    def nrows(self, ex):
+        """the number of rows as one symbol per (universe, presence predicate)"""
+        cache = ex.__dict__.setdefault("_nrows", {})
+        key = (self.uni.name, id(self.present))
+        if key not in cache:
+            n = pyvc.fresh("nrows", z3.IntSort())
+            w = self.uni.skolem(f"nw{next(_uid)}")
+            ex.facts.append(n >= 0)
+            ex.facts.append(z3.Implies(n > 0, to_z3(self.present(w))))
+            r = self.uni.skolem(f"nr{next(_uid)}")
+            ex.facts.append(z3.ForAll(list(r), z3.Implies(to_z3(self.present(r)), n > 0)))
+            cache[key] = (n, self.present)
+        return cache[key][0]
+
     # -- core ops
     def series(self, col: str) -> SymSeries:
         if col not in self.cols:
@@ -570,6 +701,24 @@ class SymDF:
         w = tuple(f(to_z3(label)) for f in self._label_wit)
         ex.oblige(f"loc_scalar_keyerror_{col}", pc + list(ex.facts), z3.And(to_z3(self.present(w)), to_z3(self.label(w)) == to_z3(label)), "KeyError absence on df.loc[label, col]")
         return self.cols[col].val(w)
+
+    def series_at_labels(self, ex, labels: SymSeries, col: str, pc) -> SymSeries:
+        """df.loc[label_series, col]: positionally aligned with the label series - element m is the cell of `col` in the row
+        carrying label labels(m) (KeyError obligation; unique labels)."""
+        _assume("pandas df.loc[label_series, col] (unique labels): one value per element of the label series, the cell of the row carrying that label; KeyError if missing")
+        if col not in self.cols:
+            raise Unsupported(f"KeyError: column {col!r}")
+        m = labels.uni.skolem(f"sl{next(_uid)}")
+        # reuse the label-witness machinery of scalar look-ups (creates the witness functions and their axiom on first use)
+        probe_pc = list(pc) + [to_z3(labels.present(m))]
+        self.scalar_at_label(ex, labels.col.val(m), col, probe_pc)
+        wit, kc = self._label_wit, self.cols[col]
+
+        def val(r):
+            return kc.val(tuple(f(to_z3(labels.col.val(r))) for f in wit))
+
+        nullf = (lambda r: kc.null(tuple(f(to_z3(labels.col.val(r))) for f in wit))) if kc.null is not None else None
+        return SymSeries(labels.uni, Col(val, nullf, kc.dtype), labels.present, col, labels.label)
 
     def select_labels(self, ex, labels: SymSeries) -> "SymDF":
         """df.loc[label_series]: the rows whose label occurs in the series (KeyError obligation for labels not in the frame).
@@ -703,6 +852,9 @@ class SymDF:
             return IndexOf(self)
         if attr == "dtypes":
             return {c: DType(k.dtype) for c, k in self.cols.items()}
+        if attr == "shape":
+            _assume("pandas DataFrame.shape: (number of rows, number of columns)")
+            return (self.nrows(ex), len(self.cols))
         if attr == "empty":
             _assume("pandas DataFrame.empty: True iff the frame has no rows")
             e = pyvc.fresh("df_empty", z3.BoolSort())
@@ -779,6 +931,18 @@ class SymDF:
                     return None
                 out = SymDF(self.uni, self.cols, self.present, None, self.name + "_ri", self.order)
                 for extra in ("concat_parts", "melt_values"):
+                    if hasattr(self, extra):
+                        setattr(out, extra, getattr(self, extra))
+                return out
+            if getattr(self, "label_name", None) and getattr(self, "label_col", None) is not None and self.label_name not in self.cols:
+                _assume("pandas DataFrame.reset_index(): the named index becomes the first column, labels become 0..n-1")
+                newcols = {self.label_name: self.label_col}
+                newcols.update(self.cols)
+                if kwargs.get("inplace"):
+                    self.cols, self.label, self.label_name = newcols, None, None
+                    return None
+                out = SymDF(self.uni, newcols, self.present, None, self.name + "_ri", self.order)
+                for extra in ("agg_of", "agg_source"):
                     if hasattr(self, extra):
                         setattr(out, extra, getattr(self, extra))
                 return out
@@ -874,6 +1038,20 @@ class SymDF:
         if attr == "groupby":
             key = args[0] if args else kwargs.get("by")
             return SymGroupBy(self, key)
+        if attr == "fillna" and len(args) == 1 and isinstance(args[0], dict) and not (set(kwargs) - {"inplace"}):
+            _assume("pandas DataFrame.fillna({col: v}): missing cells of the named columns become v, everything else unchanged")
+            newcols = dict(self.cols)
+            for c, v in args[0].items():
+                if c not in newcols:
+                    continue
+                k0 = newcols[c]
+                if k0.null is None:
+                    continue
+                newcols[c] = Col((lambda r, _k=k0, _v=v: z_ite(_k.null(r), _v, _k.val(r))), None, k0.dtype)
+            if kwargs.get("inplace"):
+                self.cols = newcols
+                return None
+            return SymDF(self.uni, newcols, self.present, self.label, self.name + "_fillna", self.order)
         if attr == "merge":
             return merge(ex, self, args[0], kwargs, pc)
         if attr == "join":
@@ -885,9 +1063,26 @@ class SymDF:
             by = kwargs.get("by", args[0] if args else None)
             asc = kwargs.get("ascending", True)
             out = SymDF(self.uni, self.cols, self.present, self.label, self.name + "_sorted", ("sorted", next(_uid), by if isinstance(by, str) else tuple(by or ()), str(asc)))
-            for extra in ("concat_parts", "melt_values"):
+            for extra in ("concat_parts", "melt_values", "agg_of", "agg_source"):
                 if hasattr(self, extra):
                     setattr(out, extra, getattr(self, extra))
+            if kwargs.get("ignore_index"):
+                _assume("pandas sort_values(by=c, ascending=a, ignore_index=True): labels become the positions 0..n-1 in sorted order")
+                k = next(_uid)
+                posf = z3.Function(f"pos{k}", *([z3.IntSort()] * self.uni.arity), z3.IntSort())
+                out.label = lambda r, _f=posf: _f(*r)
+                n = out.nrows(ex)
+                a, b = self.uni.skolem(f"pa{k}"), self.uni.skolem(f"pb{k}")
+                pa, pb = to_z3(self.present(a)), to_z3(self.present(b))
+                ex.facts.append(z3.ForAll(list(a), z3.Implies(pa, z3.And(posf(*a) >= 0, posf(*a) < n)), patterns=[posf(*a)]))
+                ex.facts.append(z3.ForAll(list(a) + list(b), z3.Implies(z3.And(pa, pb, posf(*a) == posf(*b)), z3.And(*[x == y for x, y in zip(a, b)])),
+                                          patterns=[z3.MultiPattern(posf(*a), posf(*b))]))
+                bys = [by] if isinstance(by, str) else list(by or [])
+                if len(bys) == 1 and bys[0] in self.cols and self.cols[bys[0]].dtype in ("int", "float") and self.cols[bys[0]].null is None and isinstance(asc, bool):
+                    cv = self.cols[bys[0]].val
+                    rel = (to_z3(cv(a)) <= to_z3(cv(b))) if asc else (to_z3(cv(a)) >= to_z3(cv(b)))
+                    ex.facts.append(z3.ForAll(list(a) + list(b), z3.Implies(z3.And(pa, pb, posf(*a) < posf(*b)), rel), patterns=[z3.MultiPattern(posf(*a), posf(*b))]))
+                out.position = out.label
             return out
         raise Unsupported(f"DataFrame.{attr}")
 
@@ -1129,7 +1324,14 @@ def pd_namespace() -> pyvc.Namespace:
                     res = z3.If(r[0] == i, to_z3(frames[i].cols[_c].val(r[1:1 + frames[i].uni.arity])), res)
                 return res
             dts = {f.cols[c].dtype for f in frames}
-            cols[c] = Col(val, None, dts.pop() if len(dts) == 1 else "object")
+            nullf = None
+            if any(f.cols[c].null is not None for f in frames):
+                def nullf(r, _c=c):
+                    res = frames[-1].cols[_c].isnull(r[1:1 + frames[-1].uni.arity])
+                    for i in range(len(frames) - 2, -1, -1):
+                        res = z_ite(r[0] == i, frames[i].cols[_c].isnull(r[1:1 + frames[i].uni.arity]), res)
+                    return res
+            cols[c] = Col(val, nullf, dts.pop() if len(dts) == 1 else "object")
         out = SymDF(uni, cols, present, None, "concat", ("concat", next(_uid)))
         out.concat_parts = frames
         return out
@@ -1193,6 +1395,12 @@ class SymTab:
             return SymIndexDict(self)
         if attr == "sym_table":
             return SymTableList(self)
+        if attr == "NULL":
+            from . import extract as _ex
+            try:
+                return _ex.enum_members("hta.common.trace_symbol_table", "TraceSymbolTable")["NULL"]
+            except Exception:
+                raise Unsupported("TraceSymbolTable.NULL is not a literal class constant")
         return NotImplemented
 
     def hv_call_method(self, ex, attr, args, kwargs, pc, env):
@@ -1200,6 +1408,17 @@ class SymTab:
             return SymIndexDict(self)
         if attr == "get_sym_table":
             return SymTableList(self)
+        if attr == "get_runtime_launch_events_query" and not args and not kwargs:
+            # the real method, executed from its AST against this table model (f-string with symbolic ids -> query template)
+            from . import extract as _ex
+            f = _ex.get_function("hta.common.trace_symbol_table", "TraceSymbolTable.get_runtime_launch_events_query")
+            saved = ex._loop_ordinal
+            outs = ex.run_function(_ex.stripped(f), {"self": self}, pc)
+            ex._loop_ordinal = saved
+            rets = [o for o in outs if o.kind == "ret"]
+            if len(rets) != 1:
+                raise Unsupported("get_runtime_launch_events_query: expected one return path")
+            return rets[0].value
         return NotImplemented
 
 
